@@ -91,6 +91,15 @@ def run(ctx):
     if bad2:
         ctx.broken.append('correspondence C02/required (order of missing-input diagnostics): %d of %d cases disagree' % (len(bad2), len(t2)))
         ctx.first_disagreement = {'site': 'required', 'case': t2[bad2[0]]}
+    t3 = vf.read_lines(os.path.join(ctx.out, 'cases_fatal.txt'))
+    bad3, err3 = vf.coq_cases(ctx, 'C02x', ['Out.FatalOrder'], '(list (option N))', 'run_fatal', t3, shard=200, ordered=True)
+    if err3:
+        ctx.broken.append('correspondence cases (fatal error of several failing files) did not evaluate: ' + err3[-400:])
+    if bad3:
+        ctx.broken.append('correspondence C02/fatal (which file the fatal error of a run names vs Out/FatalOrder.v: the first failing file in argument order): %d of %d runs disagree' % (len(bad3), len(t3)))
+        ctx.first_disagreement = {'site': 'fatal', 'case': t3[bad3[0]]}
+    t1 = t1 + t3
+    bad1 = bad1 + bad3
     ctx.coverage.update({
         'obligations': nthm, 'discharged': ndis,
         'evaluations': s['evaluations'], 'distinct_nontrivial': s['distinct_nontrivial'],
